@@ -773,7 +773,9 @@ class Run(object):
                 try:
                     limit = self.prof.get('budget', 5000000)
                     if type(g).__name__ == 'SumGrader':
-                        limit = min(limit, 2000000)
+                        # (a sum to the cutoff for infinity of a deeply nested summand, for every
+                        # sample, legitimately needs a few million calls)
+                        limit = 20000000
                     (o, raw), steps = seams.run_with_budget(lambda: outcome2(fn), limit)
                     extra['steps'] = steps
                 except seams.BudgetExceeded as over:
